@@ -325,6 +325,26 @@ def chmod_links_stream(tag):
                        "Memfs and Stdfs (sandbox) side by side")
 
 
+# ---- C11: chown's target is fixed when the builder is made (as chmod_b's is), on both backends; owners read back on each backend's own terms --------
+def deferred_chown_stream(tag):
+    pre = [op("mkdir_p", "/a"), op("mkdir_p", "/b"), op("write_all", "/a/f", b"1"), op("write_all", "/b/f", b"2"), op("set_cwd", "/a")]
+    hs = []
+    for mode in ["s", "m"]:
+        for path in ["f", "./f", "../a/f"]:
+            for o in ["uid=5,gid=7,cwd=%s" % hx("../b"), "uid=5,cwd=%s" % hx("../b") + ",norecurse", "uid=5,gid=7,cwd=%s" % hx(".")]:
+                hs.append(_line(mode, pre + ["chown_b:%s:%s" % (hx(path), o), op("uid", "/a/f"), op("uid", "/b/f")]))
+
+    def law(line, out):
+        r = _res(out)
+        if r[-3] != "ok":
+            return False
+        # the entry named when the builder was made (under /a) is the one that changed; its namesake under the new working directory is untouched
+        return r[-2] == "n5" and r[-1] != "n5"
+    return Stream(tag + "-chown-after-cwd-change", "pycheck", hs, impl_env=c_wrap.sandbox_env(tag), pycheck=law, exhaustive=True, nontrivial=lambda l, o: True,
+                  rule="chown_b with a relative path, the working directory changed before exec(), on Stdfs (sandbox, as root) and on Memfs: the entry named when the builder "
+                       "was made changes, its namesake under the new working directory does not")
+
+
 def _extend(mod, pid, extra, note):
     P = dict(mod.PROPS[pid])
     base = P["streams"]
@@ -341,5 +361,5 @@ _extend(c_mem, "C20", c20_std_streams, "Stdfs side: C02 runs every macro on both
 _extend(c_mem, "C06", lambda tier, rng, ctx: [hmix_stream("c06h", tier)], "Stdfs side: content laws on both backends, and handles interleaved with other writers judged by the byte-vector model")
 _extend(c_mem, "C07", lambda tier, rng, ctx: [hmix_stream("c07h", tier)], "Stdfs handles interleaved with other writers are judged by the byte-vector model (c_std.py)")
 _extend(c_mem, "C08", lambda tier, rng, ctx: [order_stream("c08o")], "Stdfs side: C02, plus the order stream here")
-_extend(c_mem, "C11", lambda tier, rng, ctx: [chmod_links_stream("c11l")], "Stdfs side: chmod over trees with links on both backends side by side")
+_extend(c_mem, "C11", lambda tier, rng, ctx: [chmod_links_stream("c11l"), deferred_chown_stream("c11d")], "Stdfs side: chmod over trees with links on both backends side by side")
 _extend(c_wrap, "C02", lambda tier, rng, ctx: [spelling_stream("c02s"), copy_link_stream("c02c"), order_stream("c02o"), deferred_copy_stream("c02d"), chmod_links_stream("c02l")], "the spelling and copy-onto-links streams are shared with C05 / C09")
